@@ -52,6 +52,7 @@ type DrawRec struct {
 	Text  string // exactly what %#v prints (what rapid logs)
 	Var   int
 	Norm  string // pointer-normalised text for cross-run comparison
+	Rejected bool // drawn by a state-machine action attempt that drew and then skipped (removed by pruning)
 }
 
 type SignalRec struct {
@@ -90,6 +91,7 @@ type Invocation struct {
 	unwinding string // "", "skip", "fatal": what the interpreter raised last and has not seen recovered
 	unwindWhere string
 	EndState string // returned | skip | fatal | rapid (unwound by something rapid raised)
+	stepStart int // index into Draws where the current state-machine step began
 	inRepeat  int
 	actTries  int // consecutive action tries that skipped without drawing
 	NoValidAction bool // ended inside Repeat, unwound by rapid, after action tries that all skipped: rapid's own "no valid action" failure (or an invalid-data rejection)
